@@ -209,3 +209,69 @@ class SchedRLock:
 
     def __exit__(self, *a):
         self.release()
+
+
+class SchedLock:
+    """Scheduler-aware non-re-entrant lock (threading.Lock created by the library while a harness runs)."""
+
+    def __init__(self):
+        self.owner = None
+
+    def acquire(self, blocking=True, timeout=-1):
+        tid = getattr(threading.current_thread(), "tid", "main")
+        w = SchedRLock.world
+        sc = w.sched if w is not None else None
+        if self.owner is not None:
+            if not blocking:
+                return False
+            if self.owner == tid:
+                raise AssertionError("threading.Lock re-acquired by its owner (self-deadlock)")
+            if sc is not None and tid != "main":
+                sc.yield_point(tid, "rlock", until=lambda: self.owner is None)
+        if self.owner is not None:
+            raise AssertionError("Lock contended outside the scheduler")
+        self.owner = tid
+        return True
+
+    def release(self):
+        self.owner = None
+
+    def locked(self):
+        return self.owner is not None
+
+    __enter__ = acquire
+
+    def __exit__(self, *a):
+        self.release()
+
+
+class SchedEvent:
+    """Scheduler-aware threading.Event: wait() deschedules the caller until set() (a real wait would block the baton holder)."""
+
+    def __init__(self):
+        self.flag = False
+
+    def is_set(self):
+        return self.flag
+
+    isSet = is_set
+
+    def set(self):
+        self.flag = True
+        w = SchedRLock.world
+        if w is not None:
+            w.epoch += 1
+
+    def clear(self):
+        self.flag = False
+
+    def wait(self, timeout=None):
+        if self.flag:
+            return True
+        tid = getattr(threading.current_thread(), "tid", "main")
+        w = SchedRLock.world
+        sc = w.sched if w is not None else None
+        if sc is not None and tid != "main":
+            sc.yield_point(tid, "rlock", until=lambda: self.flag)
+        return self.flag
+
